@@ -4,7 +4,8 @@ One request per line:
   c05 <model|spec> a b c d e f | font <namehex> <first> <missing> <descent> <kind> <w…|-> | …
       kind = s | cidh | t3:a,b,c,d,e,f | cidv:<dvy>:<vx,vy;…|->
       | form <a b c d e f|nomatrix> ; <res> ; <tokens> | … | page <res> | stream <tokens|-> | stream … | bstream <hex|-> …   (mode modelb reads the bstreams)
-  res    = inherit  |  res <hex=idx,…|-> <hex=idx,…|->          (fonts, xobjects)
+  res    = inherit  |  res <hex=idx,…|-> <hex=idx,…|-> <hex=famhex:n,…|->     (fonts, xobjects, colour spaces)
+  several `page` sections = several pages, each followed by its streams
   tokens = n<rat> s<hex|-> /<hex> [ … ] z b0 b1 o<hex>
 Reply: glyphs joined by `;`, each `a b c d e f adv x0 y0 x1 y1 size <fonthex> <colour|->`, `-` for none;
 `OUT` when the spec gives the program no meaning; `ERR …` for malformed requests / exhausted nesting budget.
@@ -76,13 +77,26 @@ def parseMap (w : String) : Option (List (String × Nat)) :=
       | _, _ => none
     | _ => none)
 
+def parseCSMap (w : String) : Option (List (String × (String × Nat))) :=
+  if w == "-" then some [] else
+  (w.splitOn ",").mapM (fun kv =>
+    match kv.splitOn "=" with
+    | [k, v] =>
+      match strOfHex k, v.splitOn ":" with
+      | some k, [fam, n] =>
+        match strOfHex fam, n.toNat? with
+        | some fam, some n => some (k, (fam, n))
+        | _, _ => none
+      | _, _ => none
+    | _ => none)
+
 def parseRes (ws : List String) : Option (Option Res) :=
   match ws with
   | ["inherit"] => some none
-  | ["res", f, x] =>
-    match parseMap f, parseMap x with
-    | some f, some x => some (some ⟨f, x⟩)
-    | _, _ => none
+  | ["res", f, x, c] =>
+    match parseMap f, parseMap x, parseCSMap c with
+    | some f, some x, some c => some (some ⟨f, x, c, []⟩)
+    | _, _, _ => none
   | _ => none
 
 def parseMatrix (ws : List String) : Option Matrix :=
@@ -95,9 +109,11 @@ structure Req where
   ctm : Matrix := (1, 0, 0, 1, 0, 0)
   fonts : Array Font := #[]
   forms : Array Form := #[]
-  res : Res := ⟨[], []⟩
+  res : Res := ⟨[], [], [], []⟩
   streams : Array (List Tok) := #[]
   bstreams : Array Bytes := #[]
+  pages : Array (Res × List (List Tok) × List Bytes) := #[]   -- finished pages
+  started : Bool := false
 
 def parseSection (r : Req) (sec : String) : Option Req :=
   match words sec with
@@ -151,7 +167,9 @@ def parseSection (r : Req) (sec : String) : Option Req :=
     | _ => none
   | "page" :: rest =>
     match parseRes rest with
-    | some (some res) => some { r with res := res }
+    | some (some res) =>
+      let r := if r.started then { r with pages := r.pages.push (r.res, r.streams.toList, r.bstreams.toList) } else r
+      some { r with res := res, streams := #[], bstreams := #[], started := true }
     | _ => none
   | ["bstream", h] =>
     match bytesOfHex h with
@@ -181,23 +199,25 @@ def handle (line : String) : String :=
   | none => "ERR parse"
   | some r =>
     let env : Env := ⟨r.fonts.toList, r.forms.toList⟩
+    let pages := (r.pages.push (r.res, r.streams.toList, r.bstreams.toList)).toList
+    -- every page of the document is interpreted on its own (fresh state, its own resources)
     if r.mode == "model" then
-      let (st, gs) := Interp.runPage env FUEL r.ctm r.res r.streams.toList
-      if st.fuelOk then showGlyphs gs else "ERR fuel"
+      let outs := pages.map (fun (res, streams, _) => Interp.runPage env FUEL r.ctm res streams)
+      if outs.all (fun o => o.1.fuelOk) then showGlyphs (outs.map (·.2)).flatten else "ERR fuel"
     else if r.mode == "modelb" then
       -- byte level: lexer model (C14) over the streams, assembler, interpreter model
-      match ContentLex.contentToks r.bstreams.toList with
+      let outs := pages.map (fun (res, _, bstreams) =>
+        (ContentLex.contentToks bstreams).map (fun toks => Interp.runPage env FUEL r.ctm res [toks]))
+      match outs.mapM id with
       | none => "ERR outside the byte-level view"
-      | some toks =>
-        let (st, gs) := Interp.runPage env FUEL r.ctm r.res [toks]
-        if st.fuelOk then showGlyphs gs else "ERR fuel"
+      | some outs => if outs.all (fun o => o.1.fuelOk) then showGlyphs (outs.map (·.2)).flatten else "ERR fuel"
     else if r.mode == "spec" then
-      match parseInstrs r.streams.toList.flatten [] with
-      | (is, []) =>
-        match TextModel.runPage env FUEL r.ctm r.res is with
-        | some gs => showGlyphs gs
-        | none => "OUT"
-      | (_, _ :: _) => "OUT dangling operands"
+      let outs := pages.map (fun (res, streams, _) =>
+        -- operands left over after the last operator of a page affect nothing
+        TextModel.runPage env FUEL r.ctm res (parseInstrs streams.flatten []).1)
+      match outs.mapM id with
+      | some gls => showGlyphs gls.flatten
+      | none => "OUT"
     else "ERR mode"
 
 partial def loop (h : IO.FS.Stream) (out : IO.FS.Stream) : IO Unit := do
